@@ -34,6 +34,16 @@ def step_node(sel, name, i, k, v):
         return Y(0, TASK(TaskD("%sr%d" % (name, i), SEQ(READ(0), READ("attr")))))
     if sel == 5:
         return SYNC(0, TASK(TaskD("%ss%d" % (name, i), SEQ(READ(0), Y(0, ITEM(k, v + 20 + i)), READ(0)))))
+    if sel == 6:
+        return Y(0, ITEM(k, v + i, "err"))       # an awaited item fails: the error is thrown into the block
+    if sel == 7:
+        return Y(0, TASK(fam.raising_task("%sx%d" % (name, i), i, after_items=1, kind=k, v=v)))
+    if sel == 8:
+        # three levels: this task -> intermediate -> leaf that reads again after every flush
+        leaf = TaskD("%sl%d" % (name, i), SEQ(READ(0), READ("attr"), Y(0, ITEM(k, v + 30 + i)), READ(0),
+                                              Y(0, ITEM(1 - k, v + 31 + i)), READ(0), READ("attr")))
+        mid = TaskD("%sm%d" % (name, i), SEQ(Y(0, TASK(leaf)), READ(0)))
+        return Y(0, TASK(mid))
     raise AssertionError(sel)
 
 
@@ -56,6 +66,11 @@ def ctx_wrap(kind, cid, ov, node):
         return WITH(("rec", cid), WITH(("na", cid + "n"), node))
     if kind == 7:
         return WITH(("rec", cid), WITH(("rec", cid + "b"), node))
+    if kind == 8:
+        # two nested overrides of the SAME target in one task
+        return WITH(("sv", 0, ov), WITH(("sv", 0, ov + 1), node))
+    if kind == 9:
+        return WITH(("attr", ov), WITH(("rec", cid), WITH(("attr", ov + 1), node)))
     raise AssertionError(kind)
 
 
